@@ -397,6 +397,16 @@ def fingerprintCmds (env : Env) : List Cmd :=
 
 def fingerprintPreamble (env : Env) : Str := renderCmds (fingerprintCmds env)
 
+/-- argv of `BashLanguage.setupFingerprint`: `bash <fixed options> [-x] -c <script>` -/
+def setupFingerprintArgs (bash : Str) (trace : Bool) (script : Str) : List Str :=
+  [bash] ++ Consts.C13.fingerprintBashOpts ++ (if trace then [['-', 'x']] else []) ++ [['-', 'c'], script]
+
+/-- bash's start-up rule for non-interactive shells (shell.c `run_startup_files`): a `-c` command whose standard
+input is a network connection is taken for an rshd/sshd session and `~/.bashrc` is read - unless `--norc` is given.
+Script files (`bash -- script`) never read it. -/
+def bashReadsRc (argv : List Str) (stdinIsSocket : Bool) : Bool :=
+  stdinIsSocket && argv.contains ['-', 'c'] && !argv.contains ['-', '-', 'n', 'o', 'r', 'c']
+
 /-! ## (c) environment construction -/
 
 /-- `Env.prune(allowed)` -/
